@@ -523,6 +523,12 @@ func (s *streamer) check(hs [2]hash.Hash, path []call, cl call, m mstate, probe 
 					ok = false
 					break
 				}
+				// the digest handed out is the caller's: overwriting it, and whatever spare capacity it came with, must
+				// not reach the hasher (the second ask, and every later step of the history, would show it)
+				full := d[:cap(d)]
+				for i := range full {
+					full[i] = 0xA5
+				}
 			}
 		}
 	}
